@@ -586,6 +586,22 @@ class Resolver:
                 isinstance(fn.args[0], ast.Name) and \
                 fn.args[0].id == ctx.func.self_name:
             recv_is_self = True
+        if isinstance(fn, ast.Name) and fn.id not in ctx.func.params:
+            # a local assigned once from `self.<method>` (a bound method put
+            # in a local): the receiver is still self
+            from .model import walk_own
+            stores = [x for x in walk_own(ctx.func.node)
+                      if isinstance(x, ast.Name) and x.id == fn.id and
+                      isinstance(x.ctx, (ast.Store, ast.Del))]
+            defs = [a for a in walk_own(ctx.func.node)
+                    if isinstance(a, ast.Assign) and len(a.targets) == 1 and
+                    isinstance(a.targets[0], ast.Name) and
+                    a.targets[0].id == fn.id]
+            if len(stores) == 1 and len(defs) == 1 and \
+                    isinstance(defs[0].value, ast.Attribute) and \
+                    isinstance(defs[0].value.value, ast.Name) and \
+                    defs[0].value.value.id == ctx.func.self_name:
+                recv_is_self = True
         for t in types:
             k = t[0]
             if k == 'func':
